@@ -187,6 +187,28 @@ def lits_of(f):
     return []
 
 
+def before(root, a, b):
+    """True if `a` lies in a statement that comes earlier than the statement containing `b` in their closest common block
+    (a may be conditional; no claim that it executes)."""
+    pm = parent_map(root)
+    chain_b = [b] + ancestors(pm, b)
+    chain_a = [a] + ancestors(pm, a)
+    ids_b = {id(x): i for i, x in enumerate(chain_b)}
+    for i, x in enumerate(chain_a):
+        if id(x) in ids_b:
+            lca, ia, ib = x, i, ids_b[id(x)]
+            break
+    else:
+        return False
+    if lca.get("k") != "Block" or ia == 0 or ib == 0:
+        return False
+    sa, sb = chain_a[ia - 1], chain_b[ib - 1]
+    seq = list(lca["stmts"]) + ([lca["expr"]] if lca.get("expr") is not None else [])
+    pa = [i for i, s_ in enumerate(seq) if s_ is sa]
+    pb = [i for i, s_ in enumerate(seq) if s_ is sb]
+    return bool(pa and pb and pa[0] < pb[0])
+
+
 def precedes(root, a, b):
     """True if statement/expression `a` is executed before `b` on every path reaching b (a is, or is inside the
     unconditional part of, a statement preceding b in a block that encloses b)."""
